@@ -13,7 +13,7 @@ ENGINE = "E1"
 TECHNIQUE = "bounded exhaustive enumeration of rules x listings x all 8 mode combinations, each a separate compile-and-match on the real code, relational oracle between the 8 results"
 RULE = ("rules: a stratified subfamily covering every operator, repetition form, capture kind, $deref, the shipped @any "
         "macro and valid_addr_range (every k-th rule of the C01-C05 families plus fixed @any / valid_addr rules) x EVERY "
-        "listing of length 0..3 over a 5-instruction alphabet, with distinct addresses with addresses that restart at 0 (several code sections) and with 12-/16-digit addresses; plus listings of 4200/8300 (thorough ..65600) instructions whose only occurrence touches a block boundary (bool, first and all must agree) x the 2x2x2 combinations of return mode (bool/list), search "
+        "listing of length 0..3 over a 5-instruction alphabet, with distinct addresses with addresses that restart at 0 (several code sections) with 12-/16-digit, zero-padded, all-letter and mixed-width (1..4 digit) addresses; plus listings of 4200/8300 (thorough ..65600) instructions whose only occurrence touches a block boundary (bool, first and all must agree) ; corpus family: 8 rules (sequences, $not, $deref with capture, instruction and register-family captures) on every listing under tests/assembly (200 B .. 4 MB) x the 2x2x2 combinations of return mode (bool/list), search "
         "mode (first/all) and address-only flag, each combination run as its own MasterOfPuppets construction and call. "
         "Oracle (relational, real code vs real code): bool <=> list non-empty in every mode; first-list = all-list[:1]; "
         "address-only[k] = text before the first '::' of full[k]; verdict identical across the 8 runs; a second "
@@ -38,6 +38,7 @@ EXTRA = [
     ([{"call": ["valid_addr"]}], None, {"valid_addr_range": {"min": "0x402000", "max": "0x402fff"}}),
     (["call", "ret"], None, {"valid_addr_range": {"min": "401000", "max": "401fff"}}),
     ([{"mov": ["&x", "&y"]}, {"mov": ["&y", "&x"]}], None, None), (["&i", "&i"], None, None),
+    (["MOV"], None, None), ([{"mov": ["%RAX"]}], None, None), ([{"Mov": ["rax"]}, "push"], None, None),     # letter case: every mode must treat it alike
     ([{"mov": ["rax"]}], None, {"mnemonics-full-match": True}), ([{"mov": ["%rax"]}], None, {"operands-full-match": True}),
 ]
 
@@ -62,7 +63,11 @@ def shards(tier):
 def build_lsets(h, tier):
     # 'dup': addresses restart (objdump -d of an object file with several code sections prints every section from 0)
     return {"c12": e1.ListingSet(h, ALPHA, 3), "a64": e1.ListingSet(h, [ALPHA[0], ALPHA[2], ALPHA[4]], 2, minlen=1, addrs=["ffffffff81000004", "7ffff7dd1008"]),
-            "dup": e1.ListingSet(h, [ALPHA[0], ALPHA[2], ALPHA[4]], 3, minlen=2, addrs=["0", "4", "0", "4"])}
+            "dup": e1.ListingSet(h, [ALPHA[0], ALPHA[2], ALPHA[4]], 3, minlen=2, addrs=["0", "4", "0", "4"]),
+            # zero-padded addresses, addresses of different widths (1..5 digits, not in string order), all-letter addresses
+            "zpad": e1.ListingSet(h, [ALPHA[0], ALPHA[2], ALPHA[4]], 2, minlen=1, addrs=["00401000", "0000000000401004"]),
+            "width": e1.ListingSet(h, [ALPHA[0], ALPHA[2], ALPHA[4]], 3, minlen=2, addrs=["8", "10", "ff8"]),
+            "alpha": e1.ListingSet(h, [ALPHA[0], ALPHA[2], ALPHA[4]], 2, minlen=1, addrs=["abcdef", "deadbeef"])}
 
 
 def run_case(h, doc, macros, path):
@@ -99,10 +104,36 @@ def check_modes(out):
     return probs
 
 
+CORPUS_RULES = [["call", "mov"], [{"mov": ["rsp"]}], ["push", "push"], ["ret"], [{"lea": [{"$deref": {"main_reg": "rip", "constant_offset": "&k"}}]}],
+                [{"$not": ["mov"]}, "call"], ["&i", "&i"], [{"push": ["&genreg-1.64"]}, {"pop": ["&genreg-1.64"]}]]
+
+
+def run_corpus(shard, tier, h, res, known):
+    """the 8 mode combinations on the real listings of the repository (every address width, register and form they contain)"""
+    import glob
+    files = [p for p in sorted(glob.glob(os.path.join(REPO, "tests", "assembly", "*.s"))) if 200 < os.path.getsize(p) < (4 << 20)]
+    jobs = [(r, p) for r in CORPUS_RULES for p in files]
+    for ji in range(shard["lo"], len(jobs), shard["n"]):
+        rule, path = jobs[ji]
+        doc = make_rule_doc(rule)
+        res.evaluations += 8
+        case = {"family": "corpus", "rule": doc, "macros": None, "file": path.replace(REPO, "<repo>"), "size": 50}
+        try:
+            out = run_case(h, doc, None, path)
+        except Exception as e:
+            res.fail({**case, "clause": "raises", "expected": "8 results", "observed": repr(e)}, known)
+            continue
+        if any(bool(v) for v, _ in out.values()):
+            res.nontrivial += 1
+        for clause, exp, obs in check_modes(out):
+            res.fail({**case, "clause": clause, "expected": str(exp)[:300], "observed": str(obs)[:300]}, known)
+
+
 def run_shard(shard, tier, h, res, known):
+    run_corpus(shard, tier, h, res, known)
     rules = all_rules(tier)
     lsets = e1.get_lsets(h, tier, build_lsets)
-    ls = list(lsets["c12"]) + list(lsets["dup"]) + list(lsets["a64"])
+    ls = list(lsets["c12"]) + list(lsets["dup"]) + list(lsets["a64"]) + list(lsets["zpad"]) + list(lsets["width"]) + list(lsets["alpha"])
     LONGLIST = [(["mov", "push"], [("mov", ["%rax", "%rbx"]), ("push", ["%rax"])]),
                 (["mov", {"push": {"times": {"min": 1, "max": 3}}}, "ret"], [("mov", ["%rax", "%rbx"]), ("push", ["%rax"]), ("push", ["%rax"]), ("ret", [])]),
                 (["mov", {"$not": [{"$and": ["nop", "nop"]}]}, "ret"], [("mov", ["%rax", "%rbx"]), ("nop", []), ("ret", [])]),
@@ -153,6 +184,13 @@ def controls(h):
 def replay(case, h):
     if case.get("family") == "longlisting":
         return e1.replay_long_case(case, h)
+    if case.get("family") == "corpus":
+        try:
+            out = run_case(h, case["rule"], None, case["file"].replace("<repo>", REPO))
+        except Exception as e:
+            return True, repr(e)
+        probs = check_modes(out)
+        return bool(probs), str(probs)[:300]
     att = [(a, m, list(o)) for a, m, o in case["listing"]]
     p = h.listing_file(fmt_listing(att))
     try:
